@@ -372,7 +372,8 @@ fn interval_cell(srv: &Srv, cfg: &SrvCfg, spec: &Value) -> Value {
     c.samples.push(json!({"srv": cfg.brief(), "family": "retransmission interval", "timeout_s": t, "measured_gap_ms": measured_ms}));
     c.trace_hashes.insert(fnv64(format!("iv{t}{write}{}", cfg.single).as_bytes()));
     if let Some(w) = viol {
-        c.violations.push(Violation { property: "C09".into(), clause: "retransmission-interval".into(), facts: facts(&[("write", json!(write))]), what: format!("[{}] {}", cfg.brief(), w), replay: json!({"engine": "e2_c09", "srv": cfg.to_json(), "interval": t}), weight: 1 });
+        let prop = spec["property"].as_str().unwrap_or("C09").to_string();
+        c.violations.push(Violation { property: prop, clause: "retransmission-interval".into(), facts: facts(&[("write", json!(write))]), what: format!("[{}] {}", cfg.brief(), w), replay: json!({"engine": "e2_c09", "srv": cfg.to_json(), "interval": t}), weight: 1 });
     }
     c.to_json()
 }
